@@ -12,6 +12,7 @@ CONSTANTS
   CallbackOwnOnly = TRUE
   RemoveCancels = TRUE
   CycleSkipsLocked = TRUE
+  OfferSkipsLocked = TRUE
 INVARIANT AtMostOneNegotiation
 INVARIANT SlotsTrackLive
 INVARIANT QuietNoTasks
